@@ -60,6 +60,8 @@ type verifC12Key struct {
 //	(E) acknowledgements: a Future that reported success (index, term, data)
 //	    for proposal p => index holds p with that term on every replica that
 //	    applied or restored it, some replica did apply it, data is p's result;
+//	(R) a stopped node comes back from what its own storage holds (no
+//	    OpenSlot error, no raft panic on the loaded state);
 //	(F) after the healed, settled end: every replica holds every command
 //	    that was agreed before the settle point, so no acknowledged proposal
 //	    is lost.
@@ -181,6 +183,8 @@ func verifC12Check(h *verifC12History) verifC12Facts {
 			}
 		case "kill":
 			f.Kills++
+		case "restartfailed":
+			bad("(R) %s", e.Err)
 		case "apply":
 			r := rep(e.Node, e.Slot)
 			if e.Index <= r.cur {
